@@ -19,6 +19,7 @@ fn main() {
     mcmc_sim::sim::install_quiet_panic_hook();
     let args: Vec<String> = std::env::args().collect();
     if std::env::var("VERIF_DEBUG_TARGETS").is_ok() { debug_targets(); return; }
+    if let Ok(f) = std::env::var("VERIF_DEBUG_ROWS") { debug_rows(&f); return; }
     craft::self_check();
     let props = props::all();
     if args.len() >= 3 && args[1] == "--minimise" {
@@ -88,5 +89,89 @@ pub fn debug_targets() {
         let l = t.batch(xt.clone());
         let gr = xt.grad(&l.backward()).unwrap().to_data().convert::<f64>().to_vec::<f64>().unwrap();
         println!("   grad burn {:?} analytic {:?}", gr, t.grad(&x));
+    }
+}
+
+#[allow(dead_code)]
+pub fn debug_rows(file: &str) {
+    use crate::gtargets::*;
+    use crate::zoo::BF32;
+    use burn::prelude::*;
+    use mini_mcmc::hmc::HMC;
+    let doc: serde_json::Value = serde_json::from_str(&std::fs::read_to_string(file).unwrap()).unwrap();
+    let p = &doc["params"];
+    let mut g = crate::core::Gen::new(crate::core::pu(p, "gseed"));
+    let target = gen_smooth(&mut g, false);
+    let d = target.d;
+    let nc = crate::core::pus(p, "n_chains");
+    let scale0 = crate::core::pf(p, "start_scale");
+    let init: Vec<Vec<f32>> = (0..nc).map(|_| (0..d).map(|_| (g.normal() * scale0) as f32).collect()).collect();
+    println!("target {:?} d={} eps={} L={}", target.kind, d, crate::core::pf(p, "eps"), crate::core::pus(p, "L"));
+    let victim = (crate::core::pu(p, "hseed") % nc as u64) as usize;
+    let run = |init: Vec<Vec<f32>>, l: usize| -> Vec<u32> {
+        let mut h = HMC::<f32, BF32, GTarget>::new(target.clone(), init, crate::core::pf(p, "eps") as f32, l).set_seed(crate::core::pu(p, "hseed"));
+        h.step();
+        h.positions.to_data().to_vec::<f32>().unwrap().iter().map(|x| x.to_bits()).collect()
+    };
+    {
+        // which operation is not repeatable?
+        let flat: Vec<f32> = init.iter().flatten().cloned().collect();
+        let mk = || Tensor::<BF32, 2>::from_data(TensorData::new(flat.clone(), [nc, d]), &Default::default());
+        let lp = |t: Tensor<BF32, 2>| -> Vec<u32> { target.batch(t).to_data().to_vec::<f32>().unwrap().iter().map(|x| x.to_bits()).collect() };
+        let gr = || -> Vec<u32> {
+            let x = mk().require_grad();
+            let l = target.batch(x.clone());
+            x.grad(&l.backward()).unwrap().to_data().to_vec::<f32>().unwrap().iter().map(|v| v.to_bits()).collect()
+        };
+        let gtest = |name: &str, f: &dyn Fn(Tensor<BF32, 2>) -> Tensor<BF32, 1>| {
+            let one = || -> Vec<u32> {
+                let x = mk().require_grad();
+                let l = f(x.clone());
+                x.grad(&l.backward()).unwrap().to_data().to_vec::<f32>().unwrap().iter().map(|v| v.to_bits()).collect()
+            };
+            let rs: Vec<Vec<u32>> = (0..6).map(|_| one()).collect();
+            let distinct: std::collections::BTreeSet<Vec<u32>> = rs.iter().cloned().collect();
+            println!("  grad of {name}: {} distinct results in 6 evaluations", distinct.len());
+        };
+        gtest("sum x^2 (powi)", &|x| x.powi_scalar(2).sum_dim(1).squeeze::<1>(1));
+        gtest("sum x*x", &|x| (x.clone() * x).sum_dim(1).squeeze::<1>(1));
+        gtest("log(1 + sum x*x)", &|x| (x.clone() * x).sum_dim(1).squeeze::<1>(1).add_scalar(1.0).log());
+        gtest("log(1 + sum powi)", &|x| x.powi_scalar(2).sum_dim(1).squeeze::<1>(1).add_scalar(1.0).log());
+        gtest("c*log(1 + a*sum powi)", &|x| x.powi_scalar(2).sum_dim(1).squeeze::<1>(1).mul_scalar(0.37).add_scalar(1.0).log().mul_scalar(-2.0));
+        gtest("quartic", &|x| (x.clone().powi_scalar(4).mul_scalar(-0.25) - x.powi_scalar(2).mul_scalar(0.5)).sum_dim(1).squeeze::<1>(1));
+        let (l1, l2) = (lp(mk()), lp(mk()));
+        let (g1, g2) = (gr(), gr());
+        println!("logp repeatable: {}; gradient repeatable: {}", l1 == l2, g1 == g2);
+        use rand::{Rng, SeedableRng};
+        let mut r1 = rand::rngs::SmallRng::seed_from_u64(5);
+        let mut r2 = rand::rngs::SmallRng::seed_from_u64(5);
+        let a: Vec<f32> = (0..64).map(|_| r1.sample(rand_distr::StandardNormal)).collect();
+        let b: Vec<f32> = (0..64).map(|_| r2.sample(rand_distr::StandardNormal)).collect();
+        println!("normal draws repeatable: {}", a == b);
+        let mut h1 = HMC::<f32, BF32, GTarget>::new(target.clone(), init.clone(), 0.1, 1).set_seed(9);
+        let mut h2 = HMC::<f32, BF32, GTarget>::new(target.clone(), init.clone(), 0.1, 1).set_seed(9);
+        mcmc_sim::trace::start();
+        h1.step();
+        let e1 = mcmc_sim::trace::stop();
+        mcmc_sim::trace::start();
+        h2.step();
+        let e2 = mcmc_sim::trace::stop();
+        for (x, y) in e1.iter().zip(e2.iter()) {
+            let same = x.vals.iter().zip(y.vals.iter()).all(|(p, q)| p.to_bits() == q.to_bits());
+            println!("  trace {} repeatable: {}", x.role, same);
+        }
+    }
+    for l in [1usize, 2, 10] {
+        let a = run(init.clone(), l);
+        let b = run(init.clone(), l);
+        let mut i2 = init.clone();
+        i2[victim][0] += 0.37;
+        let c = run(i2, l);
+        let same_ab = a == b;
+        let diff_rows: Vec<usize> = (0..nc).filter(|r| *r != victim && a[r * d..(r + 1) * d] != c[r * d..(r + 1) * d]).collect();
+        println!("L={l}: identical inputs bitwise equal: {same_ab}; rows changed by perturbing row {victim}: {:?}", diff_rows);
+        for r in diff_rows.iter().take(3) {
+            println!("   row {r}: {} vs {}", f32::from_bits(a[r * d]), f32::from_bits(c[r * d]));
+        }
     }
 }
